@@ -280,6 +280,12 @@ static void grow_numrecs(MFile &f, int rank, long long maxrec, bool coll) {
 static long long bb_pending_hi(const MFile &f) { long long hi = 0; if (f.bb) for (auto &r : f.ranks) for (auto &q : r.reqs) if (q.live && q.kind != K_IGET) hi = std::max(hi, q.maxrec); return hi; }
 // is the number of records rank r sees determined (same under both drivers)?  Needed for whole-variable access to record variables.
 static bool bb_numrecs_exact(const MFile &f, int r) { const MRank &rk = f.ranks[r]; long long hi = std::max(bb_pending_hi(f), (rk.numrecs_dirty || f.mode == FM_INDEP) ? std::max(rk.numrecs, f.numrecs) : rk.numrecs); return hi == rk.numrecs; }
+// out-of-range element (NC_ERANGE): only 16-bit external types with a memory type that can hold 70000; returns the element index or -1
+static int erange_index(const MFile &f, const MVar &v, const Access &a) {
+    if (a.erange < 0 || f.bb || a.elems.empty() || v.dimids.empty() || (v.type != NC_SHORT && v.type != NC_USHORT)) return -1;
+    switch (a.memtype) { case MT_INT: case MT_UINT: case MT_LONG: case MT_LONGLONG: case MT_ULONGLONG: case MT_FLOAT: case MT_DOUBLE: break; default: return -1; }
+    return (int)(a.erange % (int)a.elems.size());
+}
 static bool model_step_inner(Model &m, Op &op);
 bool model_step(Model &m, Op &op) {
     bool ok = model_step_inner(m, op);
@@ -551,7 +557,7 @@ static bool model_step_inner(Model &m, Op &op) {
         if (!is_read && f.bb) for (int r = 0; r < m.nprocs; r++) if (op.acc[r].active && op.acc[r].form == F_VAR && v.isrec && !bb_numrecs_exact(f, r)) return skip();
         // first pass: validity and element lists (reads see the state before this op)
         for (int r = 0; r < m.nprocs; r++) {
-            Access &a = op.acc[r]; a.elems.clear(); a.exp_rc = NC_NOERR; a.rc_any = false;
+            Access &a = op.acc[r]; a.elems.clear(); a.exp_rc = NC_NOERR; a.rc_any = false; a.erange_k = -1;
             if (!a.active) continue;
             if (a.invalid == INV_TYPE_CHAR) { a.flexible = false; a.memtype = (v.type == NC_CHAR) ? MT_INT : MT_TEXT; }
             else if (v.type == NC_CHAR) a.memtype = MT_TEXT; else if (a.memtype == MT_TEXT) a.memtype = native_memtype(v.type);
@@ -587,7 +593,10 @@ static bool model_step_inner(Model &m, Op &op) {
                 if (v.dimids.empty()) { mx = type_maxval(v.type); for (int q = 0; q < m.nprocs; q++) if (op.acc[q].active) mx = std::min(mx, mem_maxval(op.acc[q].memtype)); }
                 for (size_t k = 0; k < a.elems.size(); k++) a.values[k] = value_for(opidx, v.dimids.empty() ? 0 : (a.vrank >= 0 ? a.vrank : r), (long long)k, mx);
                 long long maxrec = 0;
+                a.erange_k = erange_index(f, v, a);
+                if (a.erange_k >= 0) { a.values[(size_t)a.erange_k] = 70000 + a.erange_k % 7; a.exp_rc = NC_ERANGE; op.exp_rc_rank[r] = NC_ERANGE; }   // the call still transfers every other element and returns NC_ERANGE
                 apply_put(f, v, r, a, opidx, op.coll, maxrec);
+                if (a.erange_k >= 0) { long long e = a.elems[(size_t)a.erange_k]; if (e >= 0 && e < (long long)v.cells.size()) v.cells[(size_t)e].st = CS_UNKNOWN; }
                 invalidate_racing_reads(m, op.file, vi, r, a.elems);
                 for (size_t k = 0; k < a.elems.size(); k++) {
                     auto it = owner.find(a.elems[k]);
@@ -612,7 +621,7 @@ static bool model_step_inner(Model &m, Op &op) {
         MFile bb_backup; if (f.bb) bb_backup = f;
         auto bbskip = [&]() { m.files[op.file] = bb_backup; op.skip = true; return false; };   // burst-buffer fragment: undo what earlier ranks of this op queued
         for (int r = 0; r < m.nprocs; r++) {
-            Access &a = op.acc[r]; a.elems.clear(); a.exp_rc = NC_NOERR; a.rc_any = false; a.reqslot = -1;
+            Access &a = op.acc[r]; a.elems.clear(); a.exp_rc = NC_NOERR; a.rc_any = false; a.reqslot = -1; a.erange_k = -1;
             if (!a.active) continue;
             if (v.type == NC_CHAR) a.memtype = MT_TEXT; else if (a.memtype == MT_TEXT) a.memtype = native_memtype(v.type);
             normalise_access(v, a);
@@ -633,6 +642,7 @@ static bool model_step_inner(Model &m, Op &op) {
                 else if (rc == NC_NOERR) {
                     if (!is_read) { long long mx = std::min(type_maxval(v.type), mem_maxval(a.memtype)); a.values.resize(a.elems.size()); for (size_t k = 0; k < a.elems.size(); k++) a.values[k] = value_for(opidx, a.vrank >= 0 ? a.vrank : r, (long long)k, mx); }
                     else { a.memtype = native_memtype(v.type); }   // values are only known at completion time: read without conversion
+                    a.erange_k = is_read ? -1 : erange_index(f, v, a); if (a.erange_k >= 0) a.values[(size_t)a.erange_k] = 70000 + a.erange_k % 7;
                     MReq q; q.live = true; q.kind = kind; q.var = vi; q.acc = a; q.opidx = opidx; q.nbytes = nbytes; q.abuf_bytes = kind == K_BPUT ? nbytes : 0;
                     if (kind == K_BPUT) rk.abuf_used += nbytes;
                     a.reqslot = (int)rk.reqs.size();
@@ -645,6 +655,7 @@ static bool model_step_inner(Model &m, Op &op) {
                     }
                 }
             }
+            if (rc == NC_NOERR && !a.elems.empty() && a.erange_k >= 0) rc = NC_ERANGE;   // conversion happens at post time: the post reports NC_ERANGE, the request stays queued
             a.exp_rc = rc; op.exp_rc_rank[r] = rc;
         }
         if (is_read) op.snap = schema_copy(f);
@@ -655,21 +666,22 @@ static bool model_step_inner(Model &m, Op &op) {
         if (!f.open) return skip();
         bool cancel = op.kind == OP_CANCEL;
         if ((int)op.waits.size() != m.nprocs) return skip();
-        if (f.bb) for (auto &w : op.waits) if (w.active && w.mode == 0) for (auto s2 : w.slots) if (s2 == -2) return skip();
+        if (f.bb) for (auto &w : op.waits) if (w.active && (w.mode == 0 || w.mode == 4)) for (auto s2 : w.slots) if (s2 == -2) return skip();
         if (!cancel) { if (f.mode == FM_DEFINE || (op.coll && f.mode != FM_COLL) || (!op.coll && f.mode != FM_INDEP)) return skip(); }
         // resolve which requests complete on each rank
         std::vector<std::vector<int>> done(m.nprocs);
         for (int r = 0; r < m.nprocs; r++) {
             WaitSpec &w = op.waits[r]; MRank &rk = f.ranks[r]; w.exp_status.clear(); w.exp_rc = NC_NOERR;
             if (!w.active) continue;
-            if (w.mode == 0) {
+            if (w.mode == 4) { w.slots.clear(); for (int s2 = 0; s2 < (int)rk.reqs.size(); s2++) if (rk.reqs[s2].live && rk.reqs[s2].kind != K_IGET) w.slots.push_back(s2); for (int s2 = 0; s2 < (int)rk.reqs.size(); s2++) if (rk.reqs[s2].live && rk.reqs[s2].kind == K_IGET) w.slots.push_back(s2); }
+            if (w.mode == 0 || w.mode == 4) {
                 std::vector<int> seen;
                 for (auto &s : w.slots) {
                     if (s >= 0) { if (rk.reqs.empty()) s = -1; else s = s % (int)rk.reqs.size(); }
                     if (s >= 0 && std::find(seen.begin(), seen.end(), s) != seen.end()) s = -1;
                     if (s >= 0) seen.push_back(s);
                     if (s == -2) { w.exp_status.push_back(NC_EINVAL_REQUEST); continue; }
-                    w.exp_status.push_back(NC_NOERR);
+                    w.exp_status.push_back((s >= 0 && rk.reqs[s].live && rk.reqs[s].acc.erange_k >= 0) ? 12346 /* either NC_NOERR or NC_ERANGE */ : NC_NOERR);
                     if (s >= 0 && rk.reqs[s].live) done[r].push_back(s);
                 }
                 bool bad = false; for (auto st : w.exp_status) if (st == NC_EINVAL_REQUEST) bad = true;
@@ -684,6 +696,7 @@ static bool model_step_inner(Model &m, Op &op) {
                 MReq &q = f.ranks[r].reqs[s]; if (q.kind == K_IGET) continue;
                 MVar &v = f.vars[q.var]; long long maxrec = 0;
                 apply_put(f, v, r, q.acc, q.opidx, op.coll, maxrec);
+                if (q.acc.erange_k >= 0 && q.acc.erange_k < (int)q.acc.elems.size()) { long long e2 = q.acc.elems[(size_t)q.acc.erange_k]; if (e2 >= 0 && e2 < (long long)v.cells.size()) v.cells[(size_t)e2].st = CS_UNKNOWN; }
                 invalidate_racing_reads(m, op.file, q.var, r, q.acc.elems);
                 for (auto e : q.acc.elems) { auto key = std::make_pair(q.var, e); if (touched.count(key) && e < (long long)v.cells.size()) v.cells[(size_t)e].st = CS_UNKNOWN; touched[key] = r; }
                 grow_numrecs(f, r, maxrec, op.coll);
